@@ -532,7 +532,7 @@ PLANS["C20"] = dict(
         name="transitions",
         gen=dict(module="MC_PluginManager_C20",
                  cfg=lambda tier, seed: mc_cfg(["Inv_C20", "Inv_SameFromFileOrDir", "Inv_Emit", "Inv_EmitU"], consts=['Variant = "full"' if tier == "thorough" else 'Variant = "small"']),
-                 select=slicer_keep(4000, lambda c: c["in"]["op"] == "Uninstall")),
+                 select=slicer_keep(4000, lambda c: c["in"]["op"] == "Uninstall" or c["in"]["src"].get("loc") == "installed")),
         drive=dict(driver="plugin-install"),
         validate=dict(module="Trace_PluginInstall", cfg=trace_cfg()),
     )],
